@@ -15,7 +15,7 @@ from .. import bus, cover, gen, ref
 LEVEL = 'exploration'
 JOBS = {'quick': 2, 'thorough': 16}
 REQUIRED_MONITORS = ('chi2_reference', 'chi2_rigid_motion', 'chi2_relabel')
-REQUIRED_CLASSES = ('mobile-array:same-object-overwritten', 'mobile-array:strided-or-fortran', 'restr:none', 'restr:partial', 'restr:all-fixed', 'restr:dup-fixed', 'restr:dup-mobile',
+REQUIRED_CLASSES = ('place:far-from-origin', 'place:far-from-origin-aligned', 'mobile-array:same-object-overwritten', 'mobile-array:strided-or-fortran', 'restr:none', 'restr:partial', 'restr:all-fixed', 'restr:dup-fixed', 'restr:dup-mobile',
                     'penalty:k>0', 'penalty:k=0', 'embedded:mc')
 RULE = ('calculators over (fixed size 1..40, mobile size 1..25, restraint class, placement class); each is '
         'evaluated on 4 configurations different from the construction one. Non-trivial: at least two mobile '
@@ -69,7 +69,11 @@ def judge(ctx, fixed, mobile, restr, value):
         return
     if value < 0:
         ctx.violation('chi2-negative', f'chi2 = {value}', witness=w)
-    if abs(float(value) - want) > 1e-9 * max(abs(want), 1e-300):
+    # floating-point floor of the definition itself: every squared distance is built from coordinate differences whose
+    # absolute error is about eps * |coordinates|  (matters only for sets placed far from the origin)
+    maxabs = max(float(np.abs(fixed).max()), float(np.abs(mobile).max()))
+    floor = 64 * 2.2e-16 * maxabs * (abs(want) * (len(fixed) + len(restr or []))) ** 0.5
+    if abs(float(value) - want) > 1e-9 * max(abs(want), 1e-300) + floor:
         nres = len(restr or [])
         nf = len(fixed)
         rf = len({i for i, _ in (restr or [])})
@@ -104,7 +108,7 @@ def cases(ctx):
 
 
 RESTR = ['none', 'none-empty-list', 'partial', 'all-fixed', 'dup-fixed', 'dup-mobile', 'single', 'all-fixed-dup']
-PLACE = ['overlap', 'far', 'cluster', 'lattice-jitter']
+PLACE = ['overlap', 'far', 'cluster', 'lattice-jitter', 'far-from-origin', 'far-from-origin-aligned']
 
 
 def gen_restraints(rng, cls, nf, nm):
@@ -147,6 +151,17 @@ def place(rng, cls, nf, nm):
         return rng.normal(size=(nf, 3)), rng.normal(size=(nm, 3))
     if cls == 'far':
         return rng.normal(size=(nf, 3)), rng.normal(size=(nm, 3)) + rng.normal(size=3) * 50
+    if cls.startswith('far-from-origin'):
+        # both sets together somewhere far from the origin (box-scale to 1e4 nm); 'aligned': the mobile atoms sit almost
+        # on fixed atoms, so the measure is small compared with the coordinates
+        f = rng.normal(size=(nf, 3))
+        if cls.endswith('aligned'):
+            m = f[rng.integers(0, nf, nm)] + rng.normal(size=(nm, 3)) * 10.0 ** rng.uniform(-2, -1)
+        else:
+            m = rng.normal(size=(nm, 3))
+        d = rng.normal(size=3)
+        off = d / np.linalg.norm(d) * 10.0 ** rng.uniform(2, 4)
+        return f + off, m + off
     if cls == 'cluster':
         # mobile atoms bunched together: many of them are nearest to nobody (k > 0)
         return rng.normal(size=(nf, 3)) * 3, rng.normal(size=(nm, 3)) * 0.05 + rng.normal(size=3)
@@ -201,6 +216,14 @@ def run_calc(ctx, case):
         reuse = it % 2 == 1         # every evaluation passes the same array object, overwritten in place (as the search loop may)
         for ev in range(4):
             mobile = place(rng, pcls, nf, nm)[1] if ev else mobile0 + rng.normal(size=(nm, 3)) * 0.3
+            if pcls.startswith('far-from-origin') and ev:
+                # stay with the fixed set, wherever it is
+                if pcls.endswith('aligned'):
+                    mobile = fixed[rng.integers(0, nf, nm)] + rng.normal(size=(nm, 3)) * 10.0 ** rng.uniform(-2, -1)
+                else:
+                    mobile = fixed.mean(axis=0) + rng.normal(size=(nm, 3))
+            elif pcls == 'far-from-origin-aligned':
+                mobile = mobile0 + rng.normal(size=(nm, 3)) * 0.01
             if reuse:
                 buf[:] = mobile
                 val = calc(buf)
@@ -222,6 +245,7 @@ def run_calc(ctx, case):
             base, _ = ref_no_penalty(fixed, mobile, restr)
             kpos = want > base * (1 + 1e-12) if base > 0 else False
             ctx.hit('penalty:k>0' if kpos else 'penalty:k=0')
+            ctx.hit('place:' + pcls)
             if nm >= 2 or restr:
                 ctx.nontrivial((nf, nm, rcls, pcls, kpos))
             # common rigid motion, calculator rebuilt on the moved fixed set
@@ -229,7 +253,9 @@ def run_calc(ctx, case):
             calc2 = Calc(fixed @ R.T + t, mobile0 @ R.T + t, arg)
             v2 = calc2(mobile @ R.T + t)
             ctx.monitor('chi2_rigid_motion')
-            if abs(v2 - val) > 1e-9 * max(abs(val), 1e-300) and margin > 1e-6:
+            maxabs = max(float(np.abs(fixed).max()), float(np.abs(mobile).max()), float(np.abs(t).max()))
+            floor = 64 * 2.2e-16 * maxabs * (abs(val) * (nf + len(restr or []))) ** 0.5
+            if abs(v2 - val) > 1e-9 * max(abs(val), 1e-300) + 2 * floor and margin > 1e-6:
                 ctx.violation('chi2-not-rigid-invariant', f'{val:.12g} -> {v2:.12g} under a common rigid motion',
                               witness={'fixed': fixed, 'mobile': mobile, 'restraints': restr, 'R': R, 't': t})
             # consistent relabelling
@@ -239,7 +265,7 @@ def run_calc(ctx, case):
             calc3 = Calc(fixed[pf], mobile0[pm], r3)
             v3 = calc3(mobile[pm])
             ctx.monitor('chi2_relabel')
-            if abs(v3 - val) > 1e-9 * max(abs(val), 1e-300):
+            if abs(v3 - val) > 1e-9 * max(abs(val), 1e-300) + 2 * floor:
                 ctx.violation('chi2-not-relabel-invariant', f'{val:.12g} -> {v3:.12g} under consistent relabelling',
                               witness={'fixed': fixed, 'mobile': mobile, 'restraints': restr, 'perm_fixed': pf, 'perm_mobile': pm})
             if it == 0 and ev == 1 and case['batch'] < 3:
